@@ -259,6 +259,20 @@ def true_sender(ctx):
                (e[0] == 'call' and kind(e[1][2]) == 'attr' and
                 e[1][2][2] == 'messageReceived')]
         if not fwd:
+            if p.outcome != 'raise':
+                # the only message the connection answers itself is Hello
+                answered = any(
+                    (c[1] or '').endswith('.sendMessage') or (
+                        kind(c[2]) == 'attr' and c[2][2] == 'sendMessage')
+                    for c in p.calls())
+                ctx.ob('C14.D3', fi.qualname, 'forwarded-or-answered',
+                       answered,
+                       'a message a client sent is neither handed to the '
+                       'bus nor answered on this path [%s]: it is dropped '
+                       'without a trace - delivery does not depend on what '
+                       'the client wrote into the message' % '; '.join(
+                           '%s is %s' % (term_str(c)[:60], pol)
+                           for c, pol in p.cond[-3:]))
             continue
         n += 1
         i = fwd[0]
